@@ -362,3 +362,30 @@ func C10ConnSenders() {
 	}
 	sym.Reach("conn-done")
 }
+
+// C10FinalizerFirst: messages are already waiting on the connection when the end point is created with
+// EndPointFinalizer: the handlers the finalizer registers (it takes its time) see every one of them,
+// in order: nothing is read before the finalizer is done.
+func C10FinalizerFirst() {
+	s := newZZStream()
+	m1, m2 := zzSymMessage("in1", 1), zzSymMessage("in2", 0)
+	s.inject(m1)
+	s.inject(m2)
+	got := make(chan *Message, 4)
+	e := EndPointFinalizer(s, func(e EndPoint) {
+		sym.Yield() // the finalizer does some work first
+		e.MakeHandler(func(h *Header) (bool, bool) { return true, true }, got, nil)
+	})
+	sym.Quiesce()
+	e.Close()
+	sym.Quiesce()
+	var all []*Message
+	for m := range got {
+		all = append(all, m)
+	}
+	sym.Assert(len(all) == 2, "finalizer/message-read-before-the-handlers-were-registered")
+	if len(all) == 2 {
+		sym.Assert(zzSameMessage(*all[0], m1) && zzSameMessage(*all[1], m2), "finalizer/messages-altered-or-reordered")
+	}
+	sym.Reach("finalizer-done")
+}
